@@ -158,22 +158,33 @@ def j_rules(P, E):
                       "leaves it in the map forever", body=src, line=c.line)
 
     # ---- J6: history before broadcast; subscribe live before replay
-    for (root, field, what) in (("subjects::replay_subject::ReplaySubject::next", "items", "Vec::push"),
-                                ("subjects::behavior_subject::BehaviorSubject::next", "last_item", "store")):
-        mb = P.body(root)
-        if mb is None:
-            r.error("anchor missing: %s" % root)
-            continue
-        fa, _, _ = _acq_field(P, mb, field)
-        bc = [c.bb for c in mb.calls if c.path == SUBJ + "::next"]
-        r.instance(("J6", mb.nid), True, "history acquisitions %s broadcast %s" % (list(fa), bc))
-        if not fa or not bc:
-            r.error("J6: history write or broadcast not found in %s" % root)
-            continue
-        for b_ in bc:
-            if Effects.path_avoiding(mb, [b_], list(fa)) is not None:
-                r.violate(("J6", mb.nid, "broadcast before history"),
-                          "the item is broadcast before it is recorded: a subscriber arriving in between misses it entirely", body=mb)
+    # every state-recording write of a Behavior/Replay subject method precedes its broadcast
+    nrec = 0
+    for owner in ("subjects::replay_subject::ReplaySubject", "subjects::behavior_subject::BehaviorSubject"):
+        for meth in ("next", "error", "complete"):
+            mb = P.body(owner + "::" + meth)
+            if mb is None:
+                r.error("anchor missing: %s::%s" % (owner, meth))
+                continue
+            acqs, _, _ = mb.guards()
+            rec = [bb for bb, a in acqs.items() if a["mode"] in ("W", "M")
+                   and any(rk == "param" and rd == 1 for (rk, rd, _) in a["cell"])]
+            bc = [c.bb for c in mb.calls if c.path == SUBJ + "::" + meth]
+            r.instance(("J6", mb.nid), True, "state writes %s broadcast %s" % (rec, bc))
+            if not bc:
+                r.violate(("J6", mb.nid, "no broadcast"), "%s::%s does not forward to the inner subject" % (owner, meth), body=mb)
+                continue
+            nrec += len(rec)
+            for b_ in bc:
+                after = mb.reachable_from(b_)
+                late = [x for x in rec if x in after]
+                if late:
+                    r.violate(("J6", mb.nid, "broadcast before history"),
+                              "the event is broadcast before it is recorded (state write at bb%s after the broadcast): a "
+                              "subscriber arriving in between is handed neither the stored state nor the live event"
+                              % late, body=mb)
+    if nrec < 5:
+        r.error("J6: only %d state-recording writes found in Behavior/Replay subject methods (floor 5)" % nrec)
     rsg = None
     rb = P.body("utils::ready_set_go::ready_set_go")
     if rb is not None:
